@@ -42,6 +42,11 @@ DcL(df, it) == [Dc("List", df, "U", "U", "U", "U", "U") EXCEPT !.it = it]
 \* List with an item type: specified, left unspecified, or explicitly None (any type)
 DeclsL == { DcL("l1", "int"), DcL("U", "U"), DcL("ls", "U"), DcL("ls", "None"), DcL("U", "None"), DcL("U", "str"), DcL("l1", "U"),
             Dc("Parameter", "U", "U", "U", "U", "U", "U") }
+\* Selector declarations (default "s" = left to the constructor, which takes the first object) among ancestors that allow None
+DcS(df, an) == Dc("Selector", df, "U", "U", "U", an, "U")
+DeclsS == { DcS("s", "U"), DcS("o", "U"), DcS("None", "U"), DcS("o", "T"), DcS("None", "T"),
+            Dc("Parameter", "s", "U", "U", "U", "T", "U"), Dc("String", "s", "U", "U", "U", "T", "U"), Dc("Parameter", "U", "U", "U", "U", "U", "U"),
+            Dc("Number", "U", "U", "U", "U", "U", "U"), Dc("String", "U", "U", "U", "U", "U", "U") }
 ShapesAll == {"chain", "skip", "diamondBC", "diamondCB"}
 ShapesChain == {"chain", "skip"}
 ShapesDiamond == {"diamondBC", "diamondCB"}
